@@ -61,6 +61,34 @@ GLUE_WHAT = {"glue-get": "calling a getter and converting its result", "glue-put
              "glue-debug": "formatting with {:?}", "glue-consts": "ZERO / DEFAULT / Default::default() / new() / Copy / size_of", "glue-core": "new_with_raw_value / raw_value",
              "glue-enum": "new_with_raw_value with its documented result type (the enum itself when exhaustive, Result<enum, storage integer> otherwise) and raw_value"}
 
+def decl_relevant(prop, c):
+    """does property `prop` quantify over the layout of catalog case `c` (used when the declaration itself stops compiling)"""
+    if c is None:
+        return False
+    if c.get("kind") != "bitfield":
+        return prop in ("C07", "C16")
+    if rules.bitfield_verdict(c)[0] != rules.ACCEPT:
+        return False
+    fs = c["fields"]
+    rd = lambda f: "r" in (f.get("access") or "")
+    wr = lambda f: "w" in (f.get("access") or "")
+    lst = lambda f: len(f["ranges"]) > 1
+    return {
+        "C01": any(rd(f) and not lst(f) for f in fs),
+        "C02": any(wr(f) for f in fs),
+        "C03": any(f["array"] is not None for f in fs),
+        "C04": any(lst(f) for f in fs),
+        "C05": any(f["kind"] == "sint" for f in fs),
+        "C06": True,
+        "C08": any(f["kind"] in ("enum", "optenum", "nested") for f in fs),
+        "C11": c["base"] != c["storage"],
+        "C12": any(wr(f) for f in fs),
+        "C13": c.get("family") == "bld",
+        "C16": True,
+        "C19": bool(c.get("debug")),
+    }.get(prop, False)
+
+
 TECH = "reference-model monitor at the API boundary of the generated code"
 
 
@@ -275,6 +303,17 @@ def runtime_check(prop, tier, seed, groups=None, extra_args=()):
             c = by_id.get(dct["case"], {})
             rec = dict(kind="api-unusable", what="the documented use of a generated operation no longer compiles (%s)" % GLUE_WHAT.get(dct["part"], dct["part"]), case=dct["case"],
                        decl=emit.decl_text(c)[:3000] if c else "", observed="%s: %s" % (dct.get("code"), dct.get("message", "")[:300]), expected="compiles", tier=tier, seed=seed,
+                       group=next((g for g in groups if any(x["id"] == dct["case"] for x in catalog.family(g, tier, seed))), groups[0]), profile=profiles[0], replay_kind="runtime-build")
+            res.violations.append((None, rec))
+    # a rule-valid generated declaration that itself no longer compiles: the property cannot hold for a layout whose subject does not exist.
+    # (C09 / C10 judge acceptance as such; here the monitor reports that a layout it is quantified over was taken away from it)
+    seen_decl = set()
+    for dct in dropped_all:
+        c = by_id.get(dct["case"])
+        if dct.get("part") == "decl" and dct["case"] not in seen_decl and decl_relevant(prop, c):
+            seen_decl.add(dct["case"])
+            rec = dict(kind="declaration-rejected", what="a generated declaration that follows the documented rules (and that this property quantifies over) no longer compiles", case=dct["case"],
+                       decl=emit.decl_text(c)[:3000], observed="%s: %s" % (dct.get("code"), dct.get("message", "")[:300]), expected="compiles", tier=tier, seed=seed,
                        group=next((g for g in groups if any(x["id"] == dct["case"] for x in catalog.family(g, tier, seed))), groups[0]), profile=profiles[0], replay_kind="runtime-build")
             res.violations.append((None, rec))
     # coverage floor
